@@ -262,6 +262,11 @@ class Walker:
         key = ("field", t, name)
         if key in mem:
             return mem[key]
+        if t[0] == "binop" and t[1].endswith("WithOverflow") and name in ("0", "1"):
+            # checked arithmetic: (.0) is the plain result, (.1) the overflow flag — the same term under both profiles
+            if name == "0":
+                return ("binop", t[1][:-len("WithOverflow")], t[2], t[3])
+            return ("binop", "Overflows" + t[1][:-len("WithOverflow")], t[2], t[3])
         s = strip(t) if False else t
         if s[0] == "agg":
             short = name.split(".")[-1]
